@@ -117,267 +117,3 @@ func c8Harvest() (out []c8Harvested, unresolved []string, err error) {
 	return out, unresolved, nil
 }
 
-// ---------------------------------------------------------------------------------------------
-// Generated patterns.
-//
-// Sorted grammar (E: node position, Y: symbol name, S: identifier name, B: builtin name, T: token,
-// L: list position). Depth of an atom is 0; weight = number of constructors + number of atoms other
-// than `_`. A binding name is created at most once per pattern and never after another occurrence of
-// the same name (doc.go: providing a node to an already bound binding is an error).
-//
-//	E ::= _ | x | nil | (Ident S) | (Builtin B) | (Object S) | (Symbol Y) | (SelectorExpr E E)
-//	    | (CallExpr E L) | (BinaryExpr E T E) | (AssignStmt L T L) | (Or E E) | (Not E)
-//	    | x@E' | (Binding "x" E') | (Binding "y" nil)            E' a constructor term
-//	Y ::= _ | "<symbol>" | (Or Y0 Y0) | n@(Or Y0 Y0) | (Not Y0)  Y0 a symbol string
-//	S ::= _ | "F" | "a" | "lib" | (Or S0 S0)
-//	B ::= _ | "len" | "append"
-//	T ::= _ | "+" | "=" | ":="
-//	L ::= _ | [] | E | [E] | [E E0] | E:_                        (E0 an atom)
-//	root ::= E constructor written with a leading '(' | (List E L0)
-
-type c8Term struct {
-	s string
-	w int
-}
-
-type c8Gen struct {
-	syms   []string // symbol names for Y
-	orSyms []string // symbol names combined pairwise under Or
-	maxW   int
-	memo   map[string][]c8Term
-}
-
-func c8Atoms(ss ...string) []c8Term {
-	out := make([]c8Term, len(ss))
-	for i, s := range ss {
-		w := 1
-		if s == "_" {
-			w = 0
-		}
-		out[i] = c8Term{s, w}
-	}
-	return out
-}
-
-func c8Quote(ss []string) []string {
-	out := make([]string, len(ss))
-	for i, s := range ss {
-		out[i] = strconv.Quote(s)
-	}
-	return out
-}
-
-func (g *c8Gen) sortY(d int) []c8Term {
-	out := c8Atoms(append([]string{"_"}, c8Quote(g.syms)...)...)
-	if d >= 1 {
-		for i, a := range g.orSyms {
-			for j, b := range g.orSyms {
-				if i == j {
-					continue
-				}
-				if i < j {
-					out = append(out, c8Term{fmt.Sprintf("(Or %q %q)", a, b), 3})
-					out = append(out, c8Term{fmt.Sprintf("n@(Or %q %q)", a, b), 4})
-				}
-			}
-			out = append(out, c8Term{fmt.Sprintf("(Not %q)", a), 2})
-			out = append(out, c8Term{fmt.Sprintf("(Or %q _)", a), 2})
-		}
-	}
-	return out
-}
-
-func (g *c8Gen) sortS(d int) []c8Term {
-	out := c8Atoms("_", `"F"`, `"a"`, `"lib"`)
-	if d >= 1 {
-		out = append(out, c8Term{`(Or "F" "a")`, 3})
-	}
-	return out
-}
-
-func (g *c8Gen) sortB(int) []c8Term { return c8Atoms("_", `"len"`, `"append"`) }
-func (g *c8Gen) sortT(int) []c8Term { return c8Atoms("_", `"+"`, `"="`, `":="`) }
-
-func (g *c8Gen) atomsE() []c8Term { return c8Atoms("_", "x", "nil") }
-
-// consE returns the constructor terms of sort E of depth <= d (d >= 1).
-func (g *c8Gen) consE(d int) []c8Term {
-	key := fmt.Sprintf("consE%d", d)
-	if r, ok := g.memo[key]; ok {
-		return r
-	}
-	var out []c8Term
-	add := func(format string, w int, args ...any) {
-		if w <= g.maxW {
-			out = append(out, c8Term{fmt.Sprintf(format, args...), w})
-		}
-	}
-	sub := g.sortE(d - 1)
-	var subCons []c8Term
-	if d >= 2 {
-		subCons = g.consE(d - 1)
-	}
-	for _, s := range g.sortS(d - 1) {
-		add("(Ident %s)", 1+s.w, s.s)
-		add("(Object %s)", 1+s.w, s.s)
-	}
-	for _, b := range g.sortB(d - 1) {
-		add("(Builtin %s)", 1+b.w, b.s)
-	}
-	for _, y := range g.sortY(d - 1) {
-		add("(Symbol %s)", 1+y.w, y.s)
-	}
-	for _, a := range sub {
-		add("(Not %s)", 1+a.w, a.s)
-		for _, b := range sub {
-			if 1+a.w+b.w > g.maxW {
-				continue
-			}
-			add("(SelectorExpr %s %s)", 1+a.w+b.w, a.s, b.s)
-			add("(Or %s %s)", 1+a.w+b.w, a.s, b.s)
-		}
-		for _, l := range g.sortL(d - 1) {
-			add("(CallExpr %s %s)", 1+a.w+l.w, a.s, l.s)
-		}
-		for _, t := range g.sortT(d - 1) {
-			for _, b := range sub {
-				add("(BinaryExpr %s %s %s)", 1+a.w+t.w+b.w, a.s, t.s, b.s)
-			}
-		}
-	}
-	for _, l1 := range g.sortL(d - 1) {
-		for _, t := range g.sortT(d - 1) {
-			for _, l2 := range g.sortL(d - 1) {
-				add("(AssignStmt %s %s %s)", 1+l1.w+t.w+l2.w, l1.s, t.s, l2.s)
-			}
-		}
-	}
-	for _, c := range subCons {
-		add("x@%s", 1+c.w, c.s)
-		add(`(Binding "x" %s)`, 1+c.w, c.s)
-	}
-	add(`(Binding "y" nil)`, 2)
-	out = c8WellFormed(out)
-	g.memo[key] = out
-	return out
-}
-
-func (g *c8Gen) sortE(d int) []c8Term {
-	out := g.atomsE()
-	if d >= 1 {
-		out = append(out, g.consE(d)...)
-	}
-	return out
-}
-
-func (g *c8Gen) sortL(d int) []c8Term {
-	key := fmt.Sprintf("L%d", d)
-	if r, ok := g.memo[key]; ok {
-		return r
-	}
-	out := c8Atoms("_", "[]")
-	if d >= 0 {
-		out = append(out, c8Atoms("x", "nil")...)
-	}
-	if d >= 1 {
-		// a single node in list position, and the list spellings around terms one level down
-		out = append(out, g.consE(d)...)
-		for _, e := range g.sortE(d - 1) {
-			if 1+e.w <= g.maxW {
-				out = append(out, c8Term{"[" + e.s + "]", 1 + e.w})
-				out = append(out, c8Term{"(List " + e.s + " _)", 1 + e.w})
-			}
-			for _, e0 := range g.atomsE() {
-				if 1+e.w+e0.w <= g.maxW {
-					out = append(out, c8Term{"[" + e.s + " " + e0.s + "]", 1 + e.w + e0.w})
-				}
-			}
-		}
-	}
-	out = c8WellFormed(out)
-	g.memo[key] = out
-	return out
-}
-
-// c8WellFormed drops terms in which the binding x is given a node (x@…, (Binding "x" …)) after
-// another occurrence of x in traversal order, or twice.
-func c8WellFormed(in []c8Term) []c8Term {
-	out := in[:0:0]
-	for _, t := range in {
-		if c8BindingOK(t.s) {
-			out = append(out, t)
-		}
-	}
-	return out
-}
-
-func c8BindingOK(s string) bool {
-	if strings.Count(s, "n@") > 1 {
-		return false
-	}
-	seen := false
-	for i := 0; i < len(s); i++ {
-		switch {
-		case s[i] == '"':
-			// skip the string; (Binding "x" is a creating occurrence
-			j := i + 1
-			for j < len(s) && s[j] != '"' {
-				j++
-			}
-			if s[i:j+1] == `"x"` && i >= 9 && s[i-9:i] == "(Binding " {
-				if seen {
-					return false
-				}
-				seen = true
-			}
-			i = j
-		case s[i] == 'x' && (i == 0 || strings.IndexByte(" ([", s[i-1]) >= 0):
-			if i+1 < len(s) && s[i+1] == '@' {
-				if seen {
-					return false
-				}
-				seen = true
-			} else if i+1 == len(s) || strings.IndexByte(" )]", s[i+1]) >= 0 {
-				seen = true
-			}
-		}
-	}
-	return true
-}
-
-// c8Generated returns the root patterns: constructor terms of sort E up to depth, spelled so that
-// the parser accepts them at the root (a leading '('), plus (List E L0) roots; ordered by weight,
-// then text.
-func c8Generated(syms, orSyms []string, depth, maxW int) []string {
-	g := &c8Gen{syms: syms, orSyms: orSyms, maxW: maxW, memo: map[string][]c8Term{}}
-	var terms []c8Term
-	for _, t := range g.consE(depth) {
-		if strings.HasPrefix(t.s, "x@") {
-			continue // spelled (Binding "x" …) at the root
-		}
-		terms = append(terms, t)
-	}
-	for _, e := range g.sortE(depth - 1) {
-		for _, l := range c8Atoms("_", "[]") {
-			if 1+e.w+l.w <= maxW {
-				terms = append(terms, c8Term{"(List " + e.s + " " + l.s + ")", 1 + e.w + l.w})
-			}
-		}
-	}
-	terms = c8WellFormed(terms)
-	sort.SliceStable(terms, func(i, j int) bool {
-		if terms[i].w != terms[j].w {
-			return terms[i].w < terms[j].w
-		}
-		return terms[i].s < terms[j].s
-	})
-	out := make([]string, 0, len(terms))
-	var last string
-	for _, t := range terms {
-		if t.s != last {
-			out = append(out, t.s)
-		}
-		last = t.s
-	}
-	return out
-}
